@@ -212,6 +212,22 @@ def analyse(ctx, jobs, res, pid, do_predict=True, do_update=True):
                         if u["S"] is None or not mat_close(u["S"], ou["S"]):
                             ctx.violation(f"recorded innovation covariance of {key!r} is not H P H^T + Q (Q diagonal, by reading name)",
                                           {"definition": d, "inputs": p, "sensor": key, "observed": u["S"], "expected": ou["S"]}, key="recorded-S")
+                own = pr.get("own_readings", {}).get(key)
+                if own is not None and "_raised" not in own:
+                    dist["own_reading_cases"] = dist.get("own_reading_cases", 0) + 1
+                    if not own["alias_consistent"]:
+                        ctx.violation(f"sensor {key!r}: a reading returned by the filter's own sensor model gives a different update when passed as the object "
+                                      f"itself ({own['alias']['object']}) than as a copy of its values ({own['alias']['copy']})",
+                                      {"definition": d, "inputs": p, "sensor": key, "observed": own["alias"]}, key="update-reading-aliased")
+                    if ou is not None and not ou["rejected"] and not (ou["margin"] is not None and abs(ou["margin"]) < 1e-6):
+                        # a reading equal to the prediction: state stays, the covariance is still P - K H P (it does not depend on the reading)
+                        if not dict_close(own["state"], p["state"]):
+                            ctx.violation(f"sensor {key!r}: a reading equal to the predicted reading moved the state to {own['state']}",
+                                          {"definition": d, "inputs": p, "sensor": key, "reading": own["reading"]}, key="update-zero-innovation-state")
+                        elif not mat_close(own["cov"], ou["cov"]):
+                            ctx.violation(f"sensor {key!r}: with a reading equal to the predicted reading (innovation exactly zero) the posterior covariance is not P - K H P",
+                                          {"definition": d, "inputs": p, "sensor": key, "reading": own["reading"], "observed": own["cov"], "expected": ou["cov"]},
+                                          key="update-zero-innovation-cov")
                 if not is_sym(u["cov"], 1e-9):
                     ctx.violation("posterior covariance is not symmetric", {"definition": d, "inputs": p, "sensor": key, "observed": u["cov"]}, key="update-asym")
                 if not u["inputs_unchanged"]:
